@@ -190,7 +190,7 @@ pub fn all() -> Vec<Prop> {
                 "e4.http_supplier",
                 "e4.cfi_alias_rules",
             ],
-            watchdog_s: 120,
+            watchdog_s: 400,
         },
         Prop {
             id: "C03",
@@ -224,7 +224,7 @@ pub fn all() -> Vec<Prop> {
                 "e4.handle_stream",
                 "e4.stack_win",
             ],
-            watchdog_s: 180,
+            watchdog_s: 400,
         },
     ]
 }
